@@ -59,6 +59,9 @@ type SchedWorld struct {
 	DaemonOn []string      `json:"daemonOn"`
 	Pending  []*corev1.Pod `json:"pending"`
 	Options  SchedOptions  `json:"options"`
+	// PoolReady: per pool name, why the pool is NOT ready: "unknown" (NodeClassReady Unknown), "false" (NodeClassReady
+	// False), "none" (no status conditions yet). Absent = Ready.
+	PoolReady map[string]string `json:"poolReady,omitempty"`
 }
 
 // Knobs bias the generator for a particular property.
@@ -606,6 +609,9 @@ func Node(t *rapid.T, i int, cat []sim.ITSpec, pools []*v1.NodePool, k Knobs) si
 	n.Stage = pick(t, stages, l+"_stage")
 	if n.Stage == sim.StageRegistered {
 		n.StartupTaintsLeft = pct(t, 60, l+"_startupLeft")
+		if n.StartupTaintsLeft && pct(t, 25, l+"_startupStyled") {
+			n.StartupTaintStyle = pick(t, []string{"value", "timeAdded"}, l+"_startupStyle")
+		}
 		if pct(t, 25, l+"_zero") {
 			n.ZeroStatus = []string{pick(t, []string{"memory", "pods", GPU}, l+"_zeroRes")}
 		}
